@@ -1,16 +1,16 @@
 #!/bin/sh
-# usage: confirm_seed.sh <id> <crate dir> <demo source> <demo test name> [features]
-# Confirms in the scratch worktree /tmp/wt_<id>: with patch: suite green + demo fails; without patch: demo passes.
-id=$1; crate=$2; demo=$3; name=$4; feat=$5
-wt=/tmp/wt_$id
-cd $wt || exit 2
+# usage: confirm_seed.sh <work dir> <crate dir> <demo source> <demo test name> [cargo feature args]
+# <work dir> holds a scratch worktree repo/ of /repo and out/patch.diff (e.g. /tmp/seedwork/C01).
+# Confirms: with patch: existing suite green + demo fails; without patch: demo passes.
+wd=$1; crate=$2; demo=$3; name=$4; feat=$5
+cd $wd/repo || exit 2
 git checkout -q -- . && git clean -fdq -e target -e Cargo.lock
-git apply /tmp/seed_$id/patch.diff || { echo "PATCH DOES NOT APPLY"; exit 2; }
+git apply $wd/out/patch.diff || { echo "PATCH DOES NOT APPLY"; exit 2; }
 export CARGO_NET_OFFLINE=true
 echo "== existing suite WITH patch"; cargo test --workspace --no-fail-fast --offline 2>&1 | grep "^test result" | awk '{p+=$4; f+=$6} END {print "passed="p" failed="f}'
 mkdir -p $crate/tests; cp $demo $crate/tests/$name.rs
-echo "== demo WITH patch"; cargo test -p $(basename $crate) --test $name --offline $feat 2>&1 | grep "^test result"
-git apply -R /tmp/seed_$id/patch.diff
+echo "== demo WITH patch"; cargo test -p $(basename $crate) --test $name --offline $feat 2>&1 | grep "^test result\|panicked" | head -5
+git apply -R $wd/out/patch.diff
 echo "== demo WITHOUT patch"; cargo test -p $(basename $crate) --test $name --offline $feat 2>&1 | grep "^test result"
 rm -f $crate/tests/$name.rs
-git checkout -q -- .
+git checkout -q -- .; git clean -fdq -e target -e Cargo.lock
